@@ -78,6 +78,51 @@ fn build(hist: &[Json]) -> (Module, FunctionId) {
                     }
                     real.push(new.unwrap());
                 }
+                "tblock" => {
+                    // a block / loop whose signature comes from InstrSeqType::new: (i32) -> (i32) or () -> (i32)
+                    let s = real[sq as usize];
+                    let sig = e["v"].as_i64().unwrap();
+                    let ty = if sig == 1 { InstrSeqType::new(&mut m.types, &[ValType::I32], &[ValType::I32]) } else { InstrSeqType::new(&mut m.types, &[], &[ValType::I32]) };
+                    let is_loop = e["kind"] == "loop";
+                    let mut new = None;
+                    let end = at_end(&mut fb, s);
+                    let mut sb = fb.instr_seq(s);
+                    let mut at = pos;
+                    if sig == 1 {
+                        if end {
+                            sb.i32_const(7);
+                        } else {
+                            sb.instr_at(at, Const { value: Value::I32(7) });
+                        }
+                        at += 1;
+                    }
+                    let fill = |x: &mut InstrSeqBuilder, new: &mut Option<InstrSeqId>| {
+                        if sig != 1 {
+                            x.i32_const(7);
+                        }
+                        *new = Some(x.id());
+                    };
+                    match (is_loop, end) {
+                        (false, true) => {
+                            sb.block(ty, |x| fill(x, &mut new));
+                        }
+                        (false, false) => {
+                            sb.block_at(at, ty, |x| fill(x, &mut new));
+                        }
+                        (true, true) => {
+                            sb.loop_(ty, |x| fill(x, &mut new));
+                        }
+                        (true, false) => {
+                            sb.loop_at(at, ty, |x| fill(x, &mut new));
+                        }
+                    }
+                    if end {
+                        sb.drop();
+                    } else {
+                        sb.instr_at(at + 1, Drop {});
+                    }
+                    real.push(new.unwrap());
+                }
                 "ifelse" => {
                     let s = real[sq as usize];
                     let (mut c, mut alt) = (None, None);
